@@ -325,6 +325,7 @@ func init() {
 		r.Min("lock-order", 5)
 		reportBalanced(r, "lock-balanced")
 		r.Min("lock-balanced", 40)
+		ruleLockPaths(r)
 		// assumption (2) of the race check is itself checked: slices published
 		// into the primary's pool are not written again
 		ruleRetain(r)
